@@ -547,8 +547,39 @@ def c_copyhash(ctx, case):
         p.unregister_constant_class(Opaque)
 
 
+@check("C01.fieldless")
+def c_fieldless(ctx, case):
+    """State must not leak from one node CLASS to another: hashing an instance of a class
+    without fields (Leaf(), AlgebraicLeaf(), a user base class) between the hash of a node and
+    the construction of its equal twin changes nothing.  (Run first in every process: whatever
+    a class-level slip caches stays cached.)"""
+    (which,) = case
+    mk = [lambda: p.Variable("fl_x"), lambda: p.Sum((p.Variable("fl_x"), 2)),
+          lambda: p.Subscript(p.Variable("fl_a"), p.Variable("fl_i")), lambda: p.Wildcard(),
+          lambda: U.UNode(p.Variable("fl_x"), "t"), lambda: U.LegacyVar("fl_n", "tg"),
+          lambda: p.Call(p.Variable("fl_f"), (p.Variable("fl_x"),))]
+    firsts = [m() for m in mk]
+    h1 = [hash(o) for o in firsts]
+    base = {"Leaf": p.Leaf, "AlgebraicLeaf": p.AlgebraicLeaf, "UBase": U.UFieldless}[which]()
+    hash(base)
+    {base: 1}                   # noqa: B018
+    base == type(base)()        # noqa: B015
+    for m, o1, hv in zip(mk, firsts, h1):
+        ctx.case(None)
+        ctx.count("fieldless_sequences")
+        o2 = m()
+        if hash(o2) != hv or hash(o1) != hv or not (o1 == o2) or {o1: 1}.get(o2) != 1:
+            ctx.fail("C01.fieldless", case, f"leak:{which}:{type(o1).__name__}",
+                     f"{G.src(o1)} hashed {hv}; after hashing a {which}() instance an equal "
+                     f"{type(o2).__name__} built afresh hashes {hash(o2)} (== {o1 == o2}, same dict "
+                     f"key {({o1: 1}.get(o2) == 1)})")
+
+
 def workload(ctx):
     rng = ctx.rng
+    for which in ("Leaf", "AlgebraicLeaf", "UBase"):
+        ctx.case(("fieldless", which), True, n=0)
+        ctx.run("C01.fieldless", (which,))
     npools = ctx.per_shard(ctx.pick(8, 96))
     for k in range(npools):
         pool = build_pool(ctx, rng)
